@@ -20,7 +20,7 @@ func verifFieldsApplied(rs *rowStore)                                       {}
 func verifFast() bool                                                       { return false }
 func verifStartCh(db *DB) chan struct{}                                     { return nil }
 func verifSubscribed(db *DB)                                                {}
-func verifJoined(db *DB, stream string)                                     {}
+func verifJoined(db *DB, stream string, id common.FollowerID)               {}
 func verifSubmitted(db *DB, id common.FollowerID, offset wal.Offset)        {}
 func verifDispatched(db *DB, stream string, data []byte, offset wal.Offset) {}
 func verifPoint(name string)                                                {}
